@@ -195,6 +195,13 @@ func (c *ConsistentHash) Remove(ep endpoint.Endpoint) error {
 			delete(c.hashRing, virtualKey)
 		}
 	}
+	// the endpoint may have been added with another weight than the one passed
+	// here: drop whatever virtual nodes of this host are left
+	for virtualKey, node := range c.hashRing {
+		if node.HashKey() == ep.HashKey() {
+			delete(c.hashRing, virtualKey)
+		}
+	}
 	c.reBuildHashRingLocked()
 	return nil
 }
